@@ -36,6 +36,8 @@ def gnmGuard (n m : Int) : Bool := n > 0 && m ≥ 0 && m ≤ n * (n - 1) / 2
 def completeSimpleGuard (n : Int) : Bool := n > 0
 def completeMultiGuard (n b : Int) : Bool := n > 0 && b > 0
 def emptySimpleGuard (n : Int) : Bool := n > 0
+/-- `if len(dimensions) == 0: raise ValueError` -/
+def gridDimsGiven (dims : List Int) : Bool := !(dims.length == 0)
 /-- `for d in dimensions: if d <= 0: raise ValueError` -/
 def gridGuard (dims : List Int) : Bool := dims.all (fun d => !(d ≤ 0))
 def plantcliqueGuard (k : Int) : Bool := k ≥ 0
@@ -181,6 +183,7 @@ def argInts : List Arg → RM (List Int)
 
 def obtainGridOrTorus (args : List Arg) (periodic : Bool) (e : Option CG) : RM CG := do
   let dims ← argInts args
+  guard (gridDimsGiven dims)
   guard (gridGuard dims)
   if periodic && !torusPre dims then valueError
   else ext e
